@@ -192,6 +192,7 @@ def _shared_retarget_case(draw):
                                 'old_args': draw(st.sampled_from([[], [['w', 1]], [['w', 1], ['v', 2]]])),
                                 'new_args': draw(st.sampled_from([[], [['a', 5]], [['w', 7]]])),
                                 'order': draw(st.sampled_from(['anchor-first', 'holder-first'])),
+                                'same_target': draw(st.integers(0, 2)) == 0, 'newer_aliased': draw(st.integers(0, 2)) == 0,
                                 'extra_stage': draw(st.booleans())}}
 
 
@@ -206,11 +207,17 @@ def _run_shared_retarget(case):
     holder = {'call': tdoc.mp([('z', al)], flow=True, tag='!call:vfrec.call_2'), 'map': tdoc.mp([('z', al)], flow=True), 'seq': tdoc.sq([al], flow=True)}[c['holder']]
     # (the anchor has to come first in the text)
     doc0 = tdoc.mp([('g', old), ('n', holder)])
-    new = tdoc.mp([(k, tdoc.sc(v)) for k, v in c['new_args']], flow=True, tag='!call:vfrec.call_3')
+    # (another target - or the same one: a function node with the same target replaces the arguments)
+    nid = 1 if c.get('same_target') else 3
+    new = tdoc.mp([(k, tdoc.sc(v)) for k, v in c['new_args']], flow=True, tag=f'!call:vfrec.call_{nid}')
     if c['at'] == 'anchor':
         doc1 = tdoc.mp([('g', new)])
     else:
         doc1 = tdoc.mp([('n', tdoc.mp([('z' if c['holder'] != 'seq' else 0, new)], flow=True))])
+    if c.get('newer_aliased'):
+        # the newer node stands at two places of its own document as well: it stays one node there
+        new['anchor'] = 'y'
+        doc1 = tdoc.mp([('t', new)] + [[k, {'t': 'alias', 'name': 'y'}] if k == 'g' else [k, v] for k, v in doc1['items']]) if c['at'] == 'anchor' else doc1
     docs = [doc0, doc1] + ([tdoc.mp([('other', tdoc.sc(1))])] if c['extra_stage'] else [])
     texts = [tdoc.render(d) for d in docs]
     src = '\nsources:\n' + '\n'.join(texts)
@@ -220,20 +227,28 @@ def _run_shared_retarget(case):
     labels = ['shared-node-given-another-target', 'at=' + c['at'], 'holder=' + c['holder']]
     if status != 'ok':
         raise Violation(f'C10: build failed: {type(cfg).__name__}: {cfg}{src}')
-    ids = [e[1] for e in log]
-    dup = sorted({i for i in ids if ids.count(i) > 1})
+    # (with the same target the older and the newer node are two nodes with one target: told apart by the arguments they were written with)
+    ids = [(e[1], repr(sorted(dict(e[3]).items()))) if nid == 1 and c['old_args'] != c['new_args'] else e[1] for e in log]
+    dup = sorted({i for i in ids if ids.count(i) > (2 if nid == 1 and i == 1 and c['old_args'] == c['new_args'] else 1)}, key=repr)
     if dup:
         raise Violation(f'C10: the call(s) {dup} ran more than once: {[(e[1], e[3]) for e in log]} - one !call node standing at two places is one node, '
                         f'and the node written by the later document is one node{src}')
-    written = {1: dict(c['old_args']), 3: dict(c['new_args'])}
+    written = {1: [dict(c['old_args'])], 3: [dict(c['new_args'])]}
+    if nid == 1:
+        written = {1: [dict(c['old_args']), dict(c['new_args'])]}
+        labels.append('same-target')
     for e in log:
-        if e[1] in written and dict(e[3]) != written[e[1]] and not (e[1] == 3 and c['new_args'] == [] ):
+        if e[1] in written and dict(e[3]) not in written[e[1]]:
             raise Violation(f'C10: call {e[1]} ran with the arguments {dict(e[3])!r}, which no document has written for it ({written[e[1]]!r}){src}')
     got = O.to_builtin(cfg)
     g = got['g']
     z = got['n']['z'] if c['holder'] == 'map' else got['n'][0] if c['holder'] == 'seq' else got['n']['kw']['z']
+    if c.get('newer_aliased') and c['at'] == 'anchor':
+        labels.append('newer-node-aliased-too')
+        if O.canon(got.get('t')) != O.canon(g):
+            raise Violation(f'C10: the newer node stands at t and g (yaml alias) but the two places evaluate to {got.get("t")!r} and {g!r}{src}')
     for where, v in (('g', g), ('n.z', z)):
-        if not (isinstance(v, dict) and v.get('called') in (1, 3) and v.get('kw') == written[v['called']]):
+        if not (isinstance(v, dict) and v.get('called') in written and v.get('kw') in written[v['called']]):
             raise Violation(f'C10: {where} is {v!r}: neither the call the first document wrote nor the one the later document wrote{src}')
     return Outcome(nontrivial=True, labels=labels)
 
